@@ -4,6 +4,7 @@
 //! Exit code 0: all units translated.  Exit code 2: at least one unit failed (its
 //! file is replaced by a stub that makes every dependent theorem fail loudly, and the
 //! failure is listed in <out-dir>/translate_report.json).
+mod dispatch;
 mod ir;
 mod maccmd;
 mod maccmd_sets;
